@@ -61,11 +61,13 @@ int main(int argc, char **argv) {
     // determinism: fills 0x00, 0xA5, 0xFF, after assembling another source in the same process, and plain
     std::vector<Result> runs;
     int fills[3] = {0x00, 0xA5, 0xFF};
-    for (int f : fills) { fillnew::set(f); runs.push_back(assembleFile(src, outPath)); fillnew::set(-1); }
+    for (int f : fills) { fillnew::set(f); fillnew::poisonStack(f); runs.push_back(assembleFile(src, outPath)); fillnew::set(-1); }
     fillnew::set(0x5A);
     if (!before.empty()) (void)assembleFile(before, outPath + ".before");
+    fillnew::poisonStack(0x5A);
     runs.push_back(assembleFile(src, outPath));
     fillnew::set(-1);
+    fillnew::poisonStack(0x3C);
     runs.push_back(assembleFile(src, outPath));
     bool same = true; std::string what;
     for (size_t i = 1; i < runs.size() && same; i++) {
